@@ -80,6 +80,9 @@ def run(ctx):
             % (s["cases"], s["builds"], s["compared"], s["keepalive_observed"], s["dial_transports"],
                "evaluated" if s["dial_evaluated"] else "NOT evaluated", s["fails"], r.wall))
     ctx.take_failures(r, "fields")
+    if s.get("dial_unstable"):
+        ctx.inconclusive("dial timeout: the test process kept stalling while the dials were measured (%s)"
+                         % [n.get("msg") for n in r.of_kind("note")][:3])
     if not s["dial_evaluated"] or not s["keepalive_observed"]:
         ctx.inconclusive("dial timeout / keep-alive could not be observed in this environment (accept queue cannot be saturated or TCP_KEEPIDLE unreadable)")
     ctx.cover(traces_validated_against_impl=s["cases"], evaluations=s["compared"], distinct_nontrivial=s["distinct_nontrivial"],
@@ -92,6 +95,9 @@ def run(ctx):
     s2 = r2.summary
     ctx.log("behaviour: %d cases, %d requests (%d retries); %d failed, %.0fs" % (s2["cases"], s2["ran"], s2["retried"], s2["fails"], r2.wall))
     ctx.take_failures(r2, "behaviour")
+    if s2.get("unstable"):
+        ctx.inconclusive("behaviour: the test process kept stalling while the requests were measured (%s)"
+                         % [n.get("msg") for n in r2.of_kind("note")][:3])
     ctx.cover(traces_validated_against_impl=s2["cases"], evaluations=s2["ran"], distinct_nontrivial=s2["distinct_nontrivial"],
               samples=(s2.get("samples") or [])[:2],
               rule="one case per complete history of SetConfig/NewTransport/AddTargetTransport TLC enumerated, plus one per behaviour "
@@ -231,12 +237,16 @@ def binary(ctx):
         n = 0
         for d, want in ((0, 200), (30, 200), (3000, 504), (30, 200), (3000, 504)):
             verdict = None
+            strikes = 0
             for _ in range(3):
                 st, el, err = get(url + "?d=%d" % d, T + 1.5 + d / 4000.0 + 2)
                 n += 1
                 if want == 504 and st != 504:
                     verdict = ("not-cut-off", "status %s after %.2fs (err %s); upstream needs %d ms, -proxy.responseheadertimeout 300ms: want 504 within %.1fs" % (st, el, err, d, T + 1.5))
-                    break
+                    strikes += 1
+                    if strikes >= 2:
+                        break
+                    continue
                 if want == 504 and el > T + 1.5:
                     verdict = ("late", "504 after %.2fs, want within %.1fs" % (el, T + 1.5))
                     continue
